@@ -1245,6 +1245,93 @@ class sx_dict(metaclass=_ShimMeta):
 
 
 # ----------------------------------------------------------------------------------------------
+# in-memory byte stream that can hold symbolic bytes (io.BytesIO stand-in)
+
+class SymIO(object):
+
+    def __init__(self, initial=b''):
+        self._items = _items_of(initial) if initial is not None else []
+        self._pos = 0
+        self.closed = False
+
+    def read(self, n=-1):
+        if n is None or n < 0:
+            n = _len(self._items) - self._pos
+        n = operator.index(n)
+        out = self._items[self._pos:self._pos + n]
+        self._pos += _len(out)
+        return mk_bytes(out)
+
+    def peek(self, n=1):
+        return mk_bytes(self._items[self._pos:self._pos + n])
+
+    def readline(self):
+        out = []
+        while self._pos < _len(self._items):
+            c = self._items[self._pos]
+            self._pos += 1
+            out.append(c)
+            if c == 10:          # forks on a symbolic byte
+                break
+        return mk_bytes(out)
+
+    def write(self, data):
+        it = _items_of(data)
+        if self._pos > _len(self._items):
+            self._items.extend([0] * (self._pos - _len(self._items)))
+        self._items[self._pos:self._pos + _len(it)] = it
+        self._pos += _len(it)
+        return _len(it)
+
+    def seek(self, pos, whence=0):
+        pos = operator.index(pos)
+        if whence == 0:
+            self._pos = pos
+        elif whence == 1:
+            self._pos += pos
+        else:
+            self._pos = _len(self._items) + pos
+        self._pos = max(0, self._pos)
+        return self._pos
+
+    def tell(self):
+        return self._pos
+
+    def truncate(self, size=None):
+        if size is None:
+            size = self._pos
+        del self._items[operator.index(size):]
+        return size
+
+    def getvalue(self):
+        return mk_bytes(self._items)
+
+    def getbuffer(self):
+        raise Unsupported('getbuffer on SymIO')
+
+    def readable(self):
+        return True
+
+    def writable(self):
+        return True
+
+    def seekable(self):
+        return True
+
+    def flush(self):
+        pass
+
+    def close(self):
+        self.closed = True
+
+    def __enter__(self):
+        return self
+
+    def __exit__(self, *a):
+        self.close()
+
+
+# ----------------------------------------------------------------------------------------------
 # struct shim
 
 _CODES = {'b': (1, True), 'B': (1, False), 'h': (2, True), 'H': (2, False), 'i': (4, True),
